@@ -192,6 +192,8 @@ Proof.
   - apply W_new_domain; auto.
   - apply W_new_domain; auto.
   - apply W_new_domain; auto.
+  - destruct (ev_new_domain c m true (d_nacts (nth d (doms m) dflt_d)) false) as [m' evs] eqn:E. cbn [snd].
+    wok. pose proof (W_new_domain c m true (d_nacts (nth d (doms m) dflt_d)) false F18) as W. rewrite E in W; auto.
   - cbn [snd]. wok. apply fresh_state_cells. intros; unfold okw; simpl; lia.
   - destruct (add_op m (mk_oinfo d a objs sh)) as [m0 evo] eqn:E. cbn [snd].
     apply add_op_same in E as (_ & _ & W); auto.
@@ -342,6 +344,8 @@ Proof.
   - apply Inv_new_domain; auto.
   - apply Inv_new_domain; auto.
   - apply Inv_new_domain; auto.
+  - destruct (ev_new_domain c m true (d_nacts (nth d (doms m) dflt_d)) false) as [m' evs] eqn:E. cbn [fst].
+    pose proof (Inv_new_domain c m true (d_nacts (nth d (doms m) dflt_d)) false H) as G. rewrite E in G; auto.
   - cbn [fst]. apply Inv_add_state; auto. apply fresh_state_cells. intros; unfold live; simpl; lia.
   - destruct (add_op m (mk_oinfo d a objs sh)) as [m0 evo] eqn:E. cbn [fst].
     apply add_op_same in E as (E1 & E2 & _). eapply Inv_same; eauto.
@@ -439,6 +443,8 @@ Proof.
   - apply new_domain_extends.
   - apply new_domain_extends.
   - apply new_domain_extends.
+  - destruct (ev_new_domain c m true (d_nacts (nth d (doms m) dflt_d)) false) as [m' evs] eqn:E. cbn [fst].
+    pose proof (new_domain_extends c m true (d_nacts (nth d (doms m) dflt_d)) false) as G. rewrite E in G; auto.
   - cbn [fst]. apply add_state_extends.
   - destruct (add_op m (mk_oinfo d a objs sh)) as [m0 evo] eqn:E. cbn [fst].
     apply add_op_same in E as (E1 & E2 & _). apply extends_same; auto.
